@@ -37,12 +37,14 @@ from sa.report import Report
 
 
 def run(repo: Repo, rep: Report, tier: str) -> None:
-    cv.rule_leaf_agreement(repo, rep, "R3.1")
-    cv.rule_hook_pairs(repo, rep, "R3.3")
-    cv.rule_rename_plumbing(repo, rep, "R3.4")
-    cv.rule_unlisted_field_keeps_its_name(repo, rep, "R3.13")
-    cv.rule_recursive_registration(repo, rep, "R3.5")
-    cv.rule_field_types_resolved(repo, rep, "R3.17")
+    from sa.report import guarded as _guarded
+
+    _guarded(rep, cv.rule_leaf_agreement, repo, rep, "R3.1")
+    _guarded(rep, cv.rule_hook_pairs, repo, rep, "R3.3")
+    _guarded(rep, cv.rule_rename_plumbing, repo, rep, "R3.4")
+    _guarded(rep, cv.rule_unlisted_field_keeps_its_name, repo, rep, "R3.13")
+    _guarded(rep, cv.rule_recursive_registration, repo, rep, "R3.5")
+    _guarded(rep, cv.rule_field_types_resolved, repo, rep, "R3.17")
     from rules.c14 import rule_implicit_mapping as _rim
 
     _rim(repo, rep, "R3.18")
@@ -192,8 +194,8 @@ def run(repo: Repo, rep: Report, tier: str) -> None:
                       f"oneOf and anyOf are resolved by two copies of one routine, but they no longer return the same things (only oneOf: {only_a[:2]}; only anyOf: "
                       f"{only_b[:2]}): e.g. the optionality of a single-variant composition is kept by one spelling and lost by the other", a.loc())
 
-    cv.rule_string_formats(repo, rep, "R3.10")
-    rule_enum_values_unfiltered(repo, rep, "R3.20")
+    _guarded(rep, cv.rule_string_formats, repo, rep, "R3.10")
+    _guarded(rep, rule_enum_values_unfiltered, repo, rep, "R3.20")
     # ---------------------------------------------------------------- R3.9 every discriminator value the spec maps is in the generated dispatch table
     from rules._reuse import reuse as _reuse39
 
@@ -212,7 +214,7 @@ def run(repo: Repo, rep: Report, tier: str) -> None:
     from rules.c14 import rule_metadata_from_the_given_type as _rmg
 
     _rmg(repo, rep, "R3.15")
-    rule_free_form_object_keeps_content(repo, rep, "R3.16")
+    _guarded(rep, rule_free_form_object_keeps_content, repo, rep, "R3.16")
     _reuse39(repo, rep, "c15", {"R15.5": "R3.11"}, only=lambda subj: "python_construct_renderer" in subj)
     # ---------------------------------------------------------------- R3.8 type-array nullability is read from the document node
     # `type: [string, "null"]` lives in the raw node; IRSchema.type is a plain string (ir.py), so a test `isinstance(<ir>.type, list)` can never
